@@ -147,6 +147,63 @@ func md4Streaming() {
 	}
 }
 
+// md4Long: messages whose bit count does not fit 32 bits (RFC 1320 §3.2 appends a 64-bit
+// count). The message is streamed in 1 MiB writes into the library and into two independent
+// streaming references; digests are compared at checkpoints around 2^29 bytes = 2^32 bits.
+func md4Long() {
+	checks := []uint64{1<<29 - 1, 1 << 29, 1<<29 + 100}
+	if r.Thorough() {
+		checks = append(checks, 1<<30+17, 1<<32-1, 1<<32, 1<<32+64)
+	}
+	chunk := pattern(1<<20, 0x5C)
+	h := md4.New()
+	x := xmd4.New()
+	s := ref.NewMD4Stream()
+	// the streaming reference agrees with the whole-message one on short messages
+	for _, n := range []int{0, 1, 55, 56, 63, 64, 65, 119, 120, 1000} {
+		t := ref.NewMD4Stream()
+		t.Write(chunk[:n/2])
+		t.Write(chunk[n/2 : n])
+		if t.Sum() != ref.MD4(chunk[:n]) {
+			r.Inconclusive("streaming reference MD4 disagrees with the whole-message reference")
+			return
+		}
+	}
+	var pos uint64
+	write := func(b []byte) {
+		h.Write(b)
+		x.Write(b)
+		s.Write(b)
+		pos += uint64(len(b))
+	}
+	for _, c := range checks {
+		for pos < c {
+			k := uint64(len(chunk))
+			if c-pos < k {
+				k = c - pos
+			}
+			write(chunk[:k])
+		}
+		var got [16]byte
+		p, v, st := mon.Guard(func() { got = h.Sum() })
+		r.Eval(1)
+		cs := map[string]any{"len": c, "message": "pattern(1<<20, 0x5C) repeated, 1 MiB writes"}
+		if p {
+			r.Violation("md4.stream:panic", fmt.Sprintf("panic %v at %s", v, mon.TopLibFrame(st)), cs)
+			return
+		}
+		want := s.Sum()
+		if xs := x.Sum(nil); !bytes.Equal(xs, want[:]) {
+			r.Inconclusive(fmt.Sprintf("reference MD4s disagree at %d bytes", c))
+			return
+		}
+		if got != want {
+			r.Violation("md4.stream:digest:long", fmt.Sprintf("len=%d (bit count %#x) got %x want %x", c, c*8, got, want), cs)
+		}
+		r.Nontrivial(fmt.Sprintf("verylong|%d", c))
+	}
+}
+
 // md4Interleave: operation strings over {Write(chunk), Sum, HexSum}.
 func md4Interleave() {
 	rng := r.Rand("md4interleave")
@@ -229,6 +286,15 @@ func md4Interleave() {
 			r.Sample(map[string]any{"kind": "md4-interleave", "ops": fmt.Sprint(ops)})
 		}
 	}
+}
+
+func isASCII7(s string) bool {
+	for i := 0; i < len(s); i++ {
+		if s[i] >= 0x80 {
+			return false
+		}
+	}
+	return true
 }
 
 func sortInts(a []int) {
@@ -344,6 +410,31 @@ func hashes() {
 			checkLM(gen.ASCII7(rng, n))
 		}
 	}
+	// NUL is a 7-bit character too: at every position, alone and in pairs, and in random
+	// strings over the whole 7-bit range including NUL
+	for pos := 0; pos < 16; pos++ {
+		for _, base := range []string{"aaaaaaaaaaaaaaaa", "secretSECRET1234", "Zq9!Zq9!Zq9!Zq9!"} {
+			for n := pos + 1; n <= 16; n++ {
+				b := []byte(base[:n])
+				b[pos] = 0
+				checkLM(string(b))
+				if pos+7 < n {
+					b[pos+7] = 0
+					checkLM(string(b))
+				}
+			}
+		}
+	}
+	for t := 0; t < r.Pick(2000, 40000); t++ {
+		b := make([]byte, rng.IntN(18))
+		for i := range b {
+			b[i] = byte(rng.IntN(0x80))
+			if rng.IntN(5) == 0 {
+				b[i] = 0
+			}
+		}
+		checkLM(string(b))
+	}
 	for c := 1; c < 0x80; c++ {
 		for pos := 0; pos < 14; pos += 3 {
 			b := []byte("aaaaaaaaaaaaaa")
@@ -361,6 +452,14 @@ func hashes() {
 	fixed = append(fixed, "\uFFFD", "a\uFFFDb\uFFFD", "\uFFFE\uFFFF", "\uD7FF\uE000", "\U00010000\U0010FFFF", "\x00", "a\x00b\x7f", "\u0080\u07FF\u0800")
 	users := []string{"", "tom", "TOM", "Administrator", "ÄDMIN", "Пользователь", "𐐀user", "user.name@corp"}
 	users = append(users, "u\uFFFDser", "\U0010FFFFx", "tom%s", "100%")
+	// strings a convenience layer might interpret (hash spellings, qualified names) are data
+	fixed = append(fixed, gen.ShapedSecrets()...)
+	users = append(users, gen.ShapedUsers()[:12]...)
+	for _, pw := range gen.ShapedSecrets() {
+		if isASCII7(pw) {
+			checkLM(pw)
+		}
+	}
 	i := 0
 	for _, pw := range fixed {
 		for _, u := range users {
@@ -452,6 +551,7 @@ func main() {
 	r.Assume("crypto/des, crypto/sha1, crypto/hmac of the Go standard library are correct", "golang.org/x/crypto/md4 and the harness's RFC 1320 transcription must agree on every message (else inconclusive)", "lower-casing of user names uses Go's strings.ToLower in the reference as well (simple case mapping)", "DCC2 hashcat line: user field compared case-insensitively, hex compared case-insensitively")
 	md4Streaming()
 	md4Interleave()
+	md4Long()
 	hashes()
 	concurrentCallers()
 	r.Finish()
